@@ -16,6 +16,10 @@ type gen struct {
 	exotic bool // the record under construction may use the exotic features (see wire.ClassOf)
 	big    bool // allow long opaque fields / many strings (C08: messages beyond 16384 octets)
 	plain  bool // escape-free content only (C08 exactness clause)
+
+	noExotic bool      // never use the exotic features (C08: they are C01's business)
+	related  bool      // names of one message share suffixes (exercises compression)
+	pool     [][][]int // names used so far in the message under construction
 }
 
 func newGen(r *rand.Rand) *gen { return &gen{r: r} }
@@ -90,7 +94,48 @@ func (g *gen) label(max int) []int {
 	return g.octets(l)
 }
 
+func wireLen(n [][]int) int {
+	t := 1
+	for _, l := range n {
+		t += 1 + len(l)
+	}
+	return t
+}
+
+// name: a fresh name, or -- for related names -- a name used before in this message, possibly
+// with labels put in front or with the case of some letters changed.
 func (g *gen) name() [][]int {
+	if g.related && len(g.pool) > 0 && g.r.Intn(4) != 0 {
+		base := g.pool[g.r.Intn(len(g.pool))]
+		n := make([][]int, 0, len(base)+2)
+		for k := g.pick([]int{0, 0, 1, 1, 2}); k > 0; k-- {
+			l := g.label(20)
+			if wireLen(base)+wireLen(n)+len(l) <= 255 {
+				n = append(n, l)
+			}
+		}
+		for _, l := range base[g.r.Intn(len(base)+1):] { // some suffix of it
+			c := append([]int(nil), l...)
+			if g.r.Intn(5) == 0 {
+				for i := range c {
+					if c[i] >= 'a' && c[i] <= 'z' && g.r.Intn(2) == 0 {
+						c[i] -= 32
+					}
+				}
+			}
+			n = append(n, c)
+		}
+		g.pool = append(g.pool, n)
+		return n
+	}
+	n := g.freshName()
+	if g.related && len(n) > 0 {
+		g.pool = append(g.pool, n)
+	}
+	return n
+}
+
+func (g *gen) freshName() [][]int {
 	target := g.pick([]int{1, 3, 10, 10, 20, 60, 200, 254, 255})
 	ls := [][]int{}
 	tot := 1
@@ -119,7 +164,7 @@ func (g *gen) str() []int {
 func (g *gen) blob(max int) []int {
 	n := g.pick([]int{0, 1, 2, 3, 4, 16, 20, 32, 64, 255, 300})
 	if g.big && g.r.Intn(3) == 0 {
-		n = g.pick([]int{1000, 5000, 20000, 60000})
+		n = g.pick([]int{1000, 5000, 17000, 30000}) // at most two long fields per record: RDATA stays below 65536
 	}
 	if n > max {
 		n = max
@@ -267,6 +312,11 @@ func (g *gen) value(e wire.Entry, maxBlob int) interface{} {
 					b[i] = '/'
 				}
 			}
+			if len(b) > 1025 {
+				b = b[:1025]
+			}
+		} else if g.r.Intn(8) == 0 {
+			b = g.octets(g.pick([]int{1026, 2000, 5000}))
 		}
 		return b
 	case "bitmap":
@@ -370,7 +420,7 @@ func (g *gen) rdata(t int) map[string]interface{} {
 				max = 255
 			}
 			if g.big {
-				max = 65000
+				max = 30000
 				if sizeKind[e.Sz] == "u8" {
 					max = 255
 				}
@@ -381,7 +431,7 @@ func (g *gen) rdata(t int) map[string]interface{} {
 			if _, set := f[e.N]; !set { // length / selector fields are set by the field they drive
 				max := 600
 				if g.big {
-					max = 60000
+					max = 30000
 				}
 				f[e.N] = g.value(e, max)
 			}
@@ -451,7 +501,11 @@ func (g *gen) message() *wire.Msg {
 	bits := g.r.Intn(256)
 	h.Qr, h.Aa, h.Tc, h.Rd, h.Ra, h.Z, h.Ad, h.Cd = bits&1 != 0, bits&2 != 0, bits&4 != 0, bits&8 != 0, bits&16 != 0, bits&32 != 0, bits&64 != 0, bits&128 != 0
 	single := !g.plain && g.r.Intn(10) < 6
-	g.exotic = single
+	if g.related {
+		single = g.r.Intn(10) < 2
+	}
+	g.exotic = single && !g.noExotic
+	g.pool = nil
 	hasOpt := false
 	if single {
 		for i := g.r.Intn(2); i > 0; i-- {
